@@ -48,7 +48,7 @@ func C04(tier string) int {
 	sp := &Spec{
 		ID: "C04", Level: "model_checking", Tier: tier, Harness: h,
 		LoadPkgs: []string{"pkg/bondmachine"},
-		Opts:     RunOpts{Inits: []string{"pkg/procbuilder", "pkg/bondmachine"}, ConfigBudgetS: 1500, TimeoutMs: 120000},
+		Opts:     RunOpts{Inits: []string{"pkg/bmnumbers", "pkg/procbuilder", "pkg/bondmachine"}, ConfigBudgetS: 1500, TimeoutMs: 120000},
 		Configs:  FilterConfigs(cfgs),
 		Assumptions: []string{
 			"simulator side only: bondmachine.VM.Step, Processor_execute, procbuilder.VM.Step, R2owa/I2rw.Simulate, waitRecvI2rw, Add/ExecuteDeferredInstructions executed symbolically; the generated hardware is not part of this check yet",
